@@ -254,10 +254,17 @@ pub fn run(args: &Args) {
         let mut cfg = EmuCfg::new(m128);
         cfg.sound = true;
         cfg.ay = true;
+        // the other devices of the machine are there or not (and busy): the AY ports are the AY's all the same
+        cfg.mouse = i % 4 >= 2;
+        cfg.kempston = i % 3 != 1;
         let mut emu = cfg.build();
         poke_bytes(&mut emu, 0x8000, &[0xED, 0x79, 0xED, 0x78]);
         let mut ops = vec![];
         for _ in 0..60 {
+            if r.chance(1, 4) {
+                emu.send_mouse_pos_diff(r.u8() as i8, r.u8() as i8);
+                emu.send_kempston_key(rustzx_core::zx::joy::kempston::KempstonKey::Fire, r.chance(1, 2));
+            }
             match r.below(3) {
                 0 => {
                     let v = r.u8();
@@ -281,7 +288,7 @@ pub fn run(args: &Args) {
                 }
                 _ => {
                     let c = emu.verif_cpu();
-                    c.regs.set_bc(0xFFFD);
+                    c.regs.set_bc(*r.pick(&[0xFFFDu16, 0xFFFD, 0xC0FD, 0xFFF9, 0xE5E5]));
                     c.regs.set_pc(0x8002);
                     step(&mut emu);
                     ops.push(json!(["rd", emu.verif_cpu().regs.get_acc()]));
